@@ -50,6 +50,13 @@ def floors(tier):
 
 def gen_defn(rng, i, tier):
     has_ctl, has_cal = bool(i & 1), bool(i & 2)
+    if i % 8 >= 4 and (i // 8) % 2 == 0:
+        # larger filters: 6-9 states, sensors with 5-7 readings (shallow expressions)
+        d = gen.program(rng, n_state=(6, 9), n_control=(2, 4) if has_ctl else (0, 0),
+                        n_calib=(2, 4) if has_cal else (0, 0), n_sensor=(1, 2), n_reading=(5, 7),
+                        depth=1, n_shared=(2, 4), dt_names=("dt",))
+        d["large"] = True
+        return d
     return gen.program(rng, n_state=(1, 4), n_control=(1, 3) if has_ctl else (0, 0),
                        n_calib=(1, 3) if has_cal else (0, 0), n_sensor=(0, 3), n_reading=(1, 4),
                        depth=2 if (tier == "quick" or rng.random() < 0.6) else 3, dt_names=("dt",))
